@@ -1265,3 +1265,55 @@ Proof.
     destruct (seg_to_cubic_endpoints s1) as [_ <-]. eexists. f_equal. f_equal.
     destruct (seg_to_cubic s1) as [[x0 y0] [x1 y1] [x2 y2] [x3 y3]]. fit_unfold. f_equal; ring.
 Qed.
+
+(** ** CurveDist::from_curve: where a candidate cubic is compared with the source (reals) *)
+Lemma cd_kept_ts_real (s e : R) :
+  cd_kept_ts s e = map (fun k => s + IZR k * ((e - s) / 21))
+                       [1; 2; 3; 4; 5; 6; 7; 8; 9; 10; 11; 12; 13; 14; 15; 16; 17; 18; 19; 20]%Z.
+Proof.
+  unfold cd_kept_ts, cd_indices. cbn [filter Z.ltb Z.compare Pos.compare Pos.compare_cont andb map].
+  unfold cd_t, cd_step. rs_unfold. unfold Rdiv. repeat (f_equal; try ring).
+Qed.
+
+(** the 20 retained samples are evenly spaced and interior, [(e-s)/21] apart and from both ends:
+    every parameter of the range is within one step of a retained sample (so a feature wider than two
+    steps cannot hide from eval_ray) — this is what a change of the step or of the retained index
+    range breaks *)
+Lemma cd_samples_cover (s e t : R) : s <= t <= e ->
+  exists u, In u (cd_kept_ts s e) /\ Rabs (t - u) <= (e - s) / 21 /\ s < u < e \/ s = e.
+Proof.
+  intros Ht. destruct (Req_dec s e) as [->|Hne].
+  { exists e. right. reflexivity. }
+  assert (Hd : 0 < (e - s) / 21) by lra.
+  rewrite cd_kept_ts_real. set (d := (e - s) / 21) in *.
+  assert (He : e = s + 21 * d) by (unfold d; lra).
+  assert (pick : forall k : Z, In k [1; 2; 3; 4; 5; 6; 7; 8; 9; 10; 11; 12; 13; 14; 15; 16; 17; 18; 19; 20]%Z ->
+            s + (IZR k - 1) * d <= t <= s + (IZR k + 1) * d ->
+            exists u, In u (map (fun k => s + IZR k * d) [1; 2; 3; 4; 5; 6; 7; 8; 9; 10; 11; 12; 13; 14; 15; 16; 17; 18; 19; 20]%Z) /\
+                      Rabs (t - u) <= d /\ s < u < e \/ s = e).
+  { intros k Hk Hb. exists (s + IZR k * d). left. split; [apply (in_map (fun k0 : Z => s + IZR k0 * d)); exact Hk|].
+    split; [apply Rabs_le; lra|].
+    assert (1 <= IZR k <= 20).
+    { cbn [In] in Hk. repeat (destruct Hk as [<-|Hk]; [lra|]). destruct Hk. }
+    nra. }
+  destruct (Rle_dec t (s + 2 * d)) as [H1|H1]; [apply (pick 1%Z); [cbn [In]; tauto|lra]|].
+  destruct (Rle_dec t (s + 3 * d)) as [H2|H2]; [apply (pick 2%Z); [cbn [In]; tauto|lra]|].
+  destruct (Rle_dec t (s + 4 * d)) as [H3|H3]; [apply (pick 3%Z); [cbn [In]; tauto|lra]|].
+  destruct (Rle_dec t (s + 5 * d)) as [H4|H4]; [apply (pick 4%Z); [cbn [In]; tauto|lra]|].
+  destruct (Rle_dec t (s + 6 * d)) as [H5|H5]; [apply (pick 5%Z); [cbn [In]; tauto|lra]|].
+  destruct (Rle_dec t (s + 7 * d)) as [H6|H6]; [apply (pick 6%Z); [cbn [In]; tauto|lra]|].
+  destruct (Rle_dec t (s + 8 * d)) as [H7|H7]; [apply (pick 7%Z); [cbn [In]; tauto|lra]|].
+  destruct (Rle_dec t (s + 9 * d)) as [H8|H8]; [apply (pick 8%Z); [cbn [In]; tauto|lra]|].
+  destruct (Rle_dec t (s + 10 * d)) as [H9|H9]; [apply (pick 9%Z); [cbn [In]; tauto|lra]|].
+  destruct (Rle_dec t (s + 11 * d)) as [H10|H10]; [apply (pick 10%Z); [cbn [In]; tauto|lra]|].
+  destruct (Rle_dec t (s + 12 * d)) as [H11|H11]; [apply (pick 11%Z); [cbn [In]; tauto|lra]|].
+  destruct (Rle_dec t (s + 13 * d)) as [H12|H12]; [apply (pick 12%Z); [cbn [In]; tauto|lra]|].
+  destruct (Rle_dec t (s + 14 * d)) as [H13|H13]; [apply (pick 13%Z); [cbn [In]; tauto|lra]|].
+  destruct (Rle_dec t (s + 15 * d)) as [H14|H14]; [apply (pick 14%Z); [cbn [In]; tauto|lra]|].
+  destruct (Rle_dec t (s + 16 * d)) as [H15|H15]; [apply (pick 15%Z); [cbn [In]; tauto|lra]|].
+  destruct (Rle_dec t (s + 17 * d)) as [H16|H16]; [apply (pick 16%Z); [cbn [In]; tauto|lra]|].
+  destruct (Rle_dec t (s + 18 * d)) as [H17|H17]; [apply (pick 17%Z); [cbn [In]; tauto|lra]|].
+  destruct (Rle_dec t (s + 19 * d)) as [H18|H18]; [apply (pick 18%Z); [cbn [In]; tauto|lra]|].
+  destruct (Rle_dec t (s + 20 * d)) as [H19|H19]; [apply (pick 19%Z); [cbn [In]; tauto|lra]|].
+  apply (pick 20%Z); [cbn [In]; tauto|lra].
+Qed.
